@@ -29,31 +29,26 @@ Theorem C18_invariant_meaning : forall w, Inv w ->
 Proof. exact Inv_meaning. Qed.
 Print Assumptions C18_invariant_meaning.
 
-(* the full statement: every modelled operation, used within its precondition, preserves the invariant *)
-Definition C18_step_statement : Prop := forall w o,
+(* every modelled operation, used on existing units/streams and within its precondition,
+   preserves the invariant (item/slice assignment and pipes, insert, append, extend, replace, pop,
+   remove, clear (variable size), empty, disconnect_sink/source/disconnect, u1-u2,
+   unit.disconnect(join_ends), unit.insert, take_place_of, replace_with(other / None),
+   Connection.reconnect, Unit(ins=..., outs=...) in all accepted forms) *)
+Theorem C18_step : forall w o,
   Inv w -> wfb w o = true -> preb w o = true -> Inv (fst (step w o)).
+Proof. exact step_Inv_all. Qed.
+Print Assumptions C18_step.
 
-(* proved for every operation except: list.empty(), unit.replace_with(None) (which calls empty()),
-   and unit construction with inlets/outlets other than None (creation with all ports missing IS
-   covered).  Those three are modelled and compared with the implementation, not proved.
-   [provenb o] is true for: item assignment / pipes (OSet), slice assignment (OSetSlice), insert, append,
-   extend, replace, pop, remove, clear (variable size), disconnect_sink/source, disconnect, u1-u2,
-   unit.disconnect(join_ends), unit.insert, take_place_of, replace_with(other), Connection.reconnect,
-   Unit(ins=None, outs=None). *)
-Theorem C18_step_partial : forall w o,
-  Inv w -> wfb w o = true -> preb w o = true -> provenb o = true -> Inv (fst (step w o)).
-Proof. exact step_Inv'. Qed.
-Print Assumptions C18_step_partial.
-
-(* lifted to every history, by induction; [within w ops]: each operation is well-formed, within its
-   precondition and among the proved ones at the moment it is executed *)
-Theorem C18_history : forall ops w, Inv w -> within w ops -> Inv (run w ops).
-Proof. exact history_Inv. Qed.
+(* lifted to every history, by induction; [within_pre w ops]: each operation is well-formed and within
+   its precondition at the moment it is executed *)
+Theorem C18_history : forall ops w, Inv w -> within_pre w ops -> Inv (run w ops).
+Proof. exact history_Inv_all. Qed.
 Print Assumptions C18_history.
 
-(* ... in particular from scratch: no units yet, k streams; units are created by the history *)
-Theorem C18_history_from_scratch : forall k ops, within (empty_world k) ops -> Inv (run (empty_world k) ops).
-Proof. intros k ops. apply history_Inv. apply Inv_empty. Qed.
+(* ... in particular from scratch: no units yet, k streams; the units are created by the history *)
+Theorem C18_history_from_scratch : forall k ops,
+  within_pre (empty_world k) ops -> Inv (run (empty_world k) ops).
+Proof. intros k ops. apply history_Inv_all. apply Inv_empty. Qed.
 Print Assumptions C18_history_from_scratch.
 
 (* a vacated port holds a new placeholder (remove; pop on a fixed-size list and
@@ -73,9 +68,11 @@ Definition demo : list op :=
    OInsert SOut 2 0%Z (AObj (S_ 3)); OExtend SOut 2 [AObj (S_ 4)]; OPop SOut 2 0%Z; OPop SIn 2 0%Z;
    OReplace SIn 1 (AObj (S_ 0)) (AAt SOut 0 0); ORemove SIn 1 (AAt SIn 1 0); ODisc SOut (AObj (S_ 0));
    OUnitDisconnect 2 true; OTakePlaceOf 1 2; OReconnect (Some 0) 0%Z (AObj (S_ 2)) 1%Z (Some 1);
-   OUnitInsert 0 (AObj (S_ 2)); ODiscBoth (AObj (S_ 2)); OClear SOut 2].
-Example C18_nonvacuous : within (empty_world 5) (setup3 ++ demo) /\ Inv (run U3 demo).
-Proof. assert (H : within (empty_world 5) (setup3 ++ demo)) by within_tac. split; [exact H | now apply Inv_after]. Qed.
+   OUnitInsert 0 (AObj (S_ 2)); ODiscBoth (AObj (S_ 2)); OClear SOut 2; OEmpty SIn 1;
+   ONewUnit 2 2 true false (FList [IReal 0; INone]) (FList [INew; IReal 1; INone]);
+   ONewUnit 1 1 true true (FOne (IReal 0)) FEmpty; OReplaceWith 3 None].
+Example C18_nonvacuous : within_pre (empty_world 5) (setup3 ++ demo) /\ Inv (run U3 demo).
+Proof. assert (H : within_pre (empty_world 5) (setup3 ++ demo)) by within_tac. split; [exact H | now apply Inv_after]. Qed.
 
 (* DESIGN.md section 5 item 13: with the source as found, pop on a variable-size list breaks the
    invariant (the stream keeps its sink).  The repaired branch is the one [step] models. *)
@@ -86,7 +83,7 @@ Proof.
   assert (HI : Inv (run U3 [OAppend SIn 1 (AObj (S_ 0))])) by (apply Inv_after; within_tac).
   split; [exact HI|]. split; [reflexivity|]. split; [reflexivity|]. split.
   - apply not_Inv. vm_compute. reflexivity.
-  - apply step_Inv'; auto.
+  - apply step_Inv_all; auto.
 Qed.
 Print Assumptions C18_pop_as_found_refuted.
 
